@@ -247,17 +247,19 @@ Lemma rsub_scalar_wf a k r : wf a -> rsub_scalar a k = Ok r -> wf r.
 Proof. intros Ha. unfold rsub_scalar. apply add_scalar_wf. now apply neg_cells_wf. Qed.
 
 Lemma k_sparse_wf o a b r : wf a -> wf b -> k_sparse false o a b = Ok r -> wf r.
-Proof. destruct o; cbn; eauto using add_sparse_wf, sub_sparse_wf, mul_sparse_wf, truediv_sparse_wf. Qed.
+Proof.
+  intros Ha Hb. destruct o; cbv beta iota delta [k_sparse].
+  - now apply add_sparse_wf. - now apply sub_sparse_wf. - now apply mul_sparse_wf. - now apply truediv_sparse_wf.
+Qed.
 Lemma k_scalar_wf o a k r : wf a -> k_scalar o a k = Ok r -> wf r.
 Proof. destruct o; cbn; eauto using add_scalar_wf, sub_scalar_wf, mul_scalar_wf, truediv_scalar_wf. Qed.
 Lemma k_array_wf o a b r : wf a -> k_array o a b = Ok r -> wf r.
 Proof. destruct o; cbn; eauto using add_array_wf, sub_array_wf, mul_array_wf, truediv_array_wf. Qed.
 Lemma ik_sparse_wf o al a b r : wf a -> wf b -> ik_sparse false o al a b = Ok r -> wf r.
 Proof.
-  intros Ha Hb. unfold ik_sparse. destruct al.
-  - destruct o; cbn; unfold iadd_self, isub_self_fixed, imul_self, itruediv_self;
-      eauto using add_sparse_wf, sub_sparse_wf, mul_sparse_wf, truediv_sparse_wf.
-  - destruct o; cbn; eauto using add_sparse_wf, sub_sparse_wf, mul_sparse_wf, truediv_sparse_wf.
+  intros Ha Hb. destruct al, o; cbv beta iota delta [ik_sparse k_sparse iadd_self isub_self_fixed imul_self itruediv_self].
+  - now apply add_sparse_wf. - now apply sub_sparse_wf. - now apply mul_sparse_wf. - now apply truediv_sparse_wf.
+  - now apply add_sparse_wf. - now apply sub_sparse_wf. - now apply mul_sparse_wf. - now apply truediv_sparse_wf.
 Qed.
 
 (* ------------------------------------------------------------------ Part 2: every operation of the store keeps the invariant *)
@@ -734,9 +736,9 @@ Proof.
         bindinv H. okinv. apply store_wf_set; auto. cbn. eapply vecF_set_wf; eauto.
     + destruct (alias_of v i && (is_open ix || negb (len1 b))).
       * destruct (is_open ix); [okinv; auto|]. destruct (is_int ix); try discriminate.
-        bindinv H. okinv. apply store_wf_set; auto. exact I.
+        bindinv H. okinv. apply store_wf_set; auto; exact I.
       * destruct (is_open ix && vd2 (reduce_obj a0)); try discriminate.
-        bindinv H. okinv. apply store_wf_set; auto. exact I.
+        bindinv H. okinv. apply store_wf_set; auto; exact I.
   - (* ORed *)
     bindinv H. pose proof (getobj_wf _ _ _ Hs E) as Hx.
     match type of H with context [match ?out with RErr _ => _ | _ => _ end] => destruct out eqn:O end;
@@ -778,3 +780,648 @@ Lemma mk_wf : forall l ro, owf (mkV l ro).
 Proof. intros. cbn. apply wf_of_dense. Qed.
 Lemma mkA_wf : forall m, owf (mkA m).
 Proof. intros. cbn. induction m; cbn; constructor; auto. apply wf_of_dense. Qed.
+
+(* ================================================================== Part 3: refinement of the dense NumPy semantics *)
+Definition Rc (c : cell) (q : Q) : Prop := wfc c /\ dcell c == q.
+Definition Rv (c : cells) (v : list Q) : Prop := Forall2 Rc c v.
+Definition rrel {A B} (R : A -> B -> Prop) (x : res A) (y : res B) : Prop :=
+  match x, y with Ok a, Ok b => R a b | Err e, Err e' => e = e' | _, _ => False end.
+(* the sparse result refines the dense one: same exception class, or a well-formed vector with the same dense image *)
+Definition refines (r : res cells) (d : res (list Q)) : Prop := rrel Rv r d.
+
+Lemma Rv_dense a : wf a -> Rv a (dense a).
+Proof. intros H. unfold Rv, dense. induction H; cbn; constructor; auto. split; auto. reflexivity. Qed.
+Lemma Rv_spec c v : Rv c v <-> wf c /\ Forall2 Qeq (dense c) v.
+Proof.
+  unfold Rv, wf, dense. split.
+  - intros H. induction H as [|x y c v [Hx Hy] H [IH1 IH2]]; cbn; split; constructor; auto.
+  - intros [H1 H2]. revert v H2. induction H1 as [|x c Hx Hc IH]; intros v H2; cbn in H2; inversion H2; subst; constructor; auto.
+    split; auto.
+Qed.
+Lemma Rv_length c v : Rv c v -> length c = length v.
+Proof. intros H. induction H; cbn; auto. Qed.
+Lemma Rv_hd c v : Rv c v -> Rc (hd None c) (hd 0 v).
+Proof. intros H. destruct H; cbn; auto. split; cbn; auto. reflexivity. Qed.
+
+Lemma map2M_rrel {A A' B B' C C'} (RA : A -> A' -> Prop) (RB : B -> B' -> Prop) (R : C -> C' -> Prop)
+      (f : A -> B -> res C) (g : A' -> B' -> res C') :
+  (forall x x' y y', RA x x' -> RB y y' -> rrel R (f x y) (g x' y')) ->
+  forall a a' b b', Forall2 RA a a' -> Forall2 RB b b' -> rrel (Forall2 R) (map2M f a b) (map2M g a' b').
+Proof.
+  intros Hf a a' b b' Ha. revert b b'. induction Ha as [|x x' a a' Hx Ha IH]; intros b b' Hb; cbn.
+  - destruct Hb; cbn; constructor.
+  - destruct Hb as [|y y' b b' Hy Hb]; cbn; [constructor|].
+    specialize (Hf x x' y y' Hx Hy). destruct (f x y), (g x' y'); cbn in Hf; try contradiction; auto.
+    specialize (IH b b' Hb). destruct (map2M f a b), (map2M g a' b'); cbn in *; try contradiction; auto.
+Qed.
+Lemma mapM_rrel {A A' C C'} (RA : A -> A' -> Prop) (R : C -> C' -> Prop) (f : A -> res C) (g : A' -> res C') :
+  (forall x x', RA x x' -> rrel R (f x) (g x')) ->
+  forall a a', Forall2 RA a a' -> rrel (Forall2 R) (mapM f a) (mapM g a').
+Proof.
+  intros Hf a a' Ha. induction Ha as [|x x' a a' Hx Ha IH]; cbn; [constructor|].
+  specialize (Hf x x' Hx). destruct (f x), (g x'); cbn in Hf; try contradiction; auto.
+  destruct (mapM f a), (mapM g a'); cbn in *; try contradiction; auto.
+Qed.
+Lemma map2M_pure {A B C} (f : A -> B -> C) a b : map2M (fun x y => Ok (f x y)) a b = Ok (map2 f a b).
+Proof. revert b. induction a as [|x a IH]; intros [|y b]; cbn; auto. now rewrite IH. Qed.
+Lemma mapM_pure {A C} (f : A -> C) a : mapM (fun x => Ok (f x)) a = Ok (map f a).
+Proof. induction a as [|x a IH]; cbn; auto. now rewrite IH. Qed.
+Lemma empty_cells_map (b : cells) : empty_cells (length b) = map (fun _ => None) b.
+Proof. unfold empty_cells. induction b; cbn; congruence. Qed.
+Lemma empty_cells_mapQ (b : list Q) : empty_cells (length b) = map (fun _ => None) b.
+Proof. unfold empty_cells. induction b; cbn; congruence. Qed.
+Lemma map_id_cells (b : cells) : b = map (fun x => x) b.
+Proof. now rewrite map_id. Qed.
+
+(* the three operators that cannot raise: per-cell functions of every branch refine + - * *)
+Definition qop (o : aop) (x y : Q) : Q := match o with Add => x + y | Sub => x - y | Mul => x * y | Div => x / y end.
+Lemma aop_q_pure o x y : o <> Div -> aop_q o x y = Ok (qop o x y).
+Proof. destruct o; cbn; congruence. Qed.
+
+Ltac cellrel :=
+  intros; unfold Rc in *;
+  repeat match goal with
+         | c : cell |- _ => destruct c
+         | H : _ /\ _ |- _ => destruct H
+         end;
+  cbn in *; unfold nz;
+  repeat match goal with
+         | |- context [qzerob ?q] => let E := fresh "E" in destruct (qzerob q) eqn:E; cbn
+         end;
+  repeat match goal with
+         | E : qzerob _ = true |- _ => apply qzerob_true in E
+         | E : qzerob _ = false |- _ => apply qzerob_false in E
+         end;
+  (split; [try exact I; try (intro; nra); try (apply qmul_nz; auto; intro; nra) | try nra; try lra]).
+
+Definition same_cell (o : aop) : cell -> cell -> cell :=
+  match o with Add => add_same_c | Sub => sub_same_c | Mul => mul_same_c | Div => fun x _ => x end.
+Lemma same_cell_rel o x x' y y' : o <> Div -> Rc x x' -> Rc y y' -> Rc (same_cell o x y) (qop o x' y').
+Proof.
+  intros Ho. destruct o; try congruence; cbn [same_cell qop]; unfold add_same_c, sub_same_c, mul_same_c.
+  - cellrel.
+  - cellrel.
+  - cellrel.
+Qed.
+
+Lemma map2M_ext {A B C} (f g : A -> B -> res C) a b : (forall x y, f x y = g x y) -> map2M f a b = map2M g a b.
+Proof. intros H. revert b. induction a as [|x a IH]; intros [|y b]; cbn; auto. now rewrite H, IH. Qed.
+Lemma mapM_ext {A C} (f g : A -> res C) a : (forall x, f x = g x) -> mapM f a = mapM g a.
+Proof. intros H. induction a as [|x a IH]; cbn; auto. now rewrite H, IH. Qed.
+Lemma map2_Rv {B B'} (RB : B -> B' -> Prop) (f : cell -> B -> cell) (g : Q -> B' -> Q) a a' b b' :
+  (forall x x' y y', Rc x x' -> RB y y' -> Rc (f x y) (g x' y')) ->
+  Rv a a' -> Forall2 RB b b' -> Rv (map2 f a b) (map2 g a' b').
+Proof.
+  intros Hf Ha. revert b b'. induction Ha as [|x x' a a' Hx Ha IH]; intros b b' Hb; cbn.
+  - destruct Hb; constructor.
+  - destruct Hb; cbn; constructor; auto. now apply IH.
+Qed.
+Lemma map_Rv {A A'} (RA : A -> A' -> Prop) (f : A -> cell) (g : A' -> Q) a a' :
+  (forall x x', RA x x' -> Rc (f x) (g x')) -> Forall2 RA a a' -> Rv (map f a) (map g a').
+Proof. intros Hf Ha. induction Ha; cbn; constructor; auto. Qed.
+Lemma Forall2_Qeq_refl l : Forall2 Qeq l l.
+Proof. induction l; constructor; auto. reflexivity. Qed.
+
+Definition self1_cell (o : aop) (v y : cell) : cell :=
+  match o, v with
+  | Add, Some value => match y with Some w => nz (value + w) | None => Some value end
+  | Add, None => y
+  | Sub, Some value => match y with Some w => nz (value - w) | None => Some value end
+  | Sub, None => option_map Qopp y
+  | Mul, Some value => option_map (fun j => value * j) y
+  | _, _ => None
+  end.
+Definition other1_cell (o : aop) (ov x : cell) : cell :=
+  match o, ov with
+  | Add, Some other => match x with Some v => nz (v + other) | None => Some other end
+  | Add, None => x
+  | Sub, Some other0 => match x with Some v => nz (v + - other0) | None => Some (- other0) end
+  | Sub, None => x
+  | Mul, Some other => option_map (fun j => j * other) x
+  | _, _ => None
+  end.
+Definition arr_cell (o : aop) : cell -> Q -> cell :=
+  match o with Add => add_arr_c | Sub => sub_arr_c | Mul => mul_arr_c | Div => fun x _ => x end.
+Definition arr_self1_cell (o : aop) (v : cell) (j : Q) : cell :=
+  match o, v with
+  | Add, Some value => nz (value + j)
+  | Add, None => nz j
+  | Sub, Some value => nz (value - j)
+  | Sub, None => if qzerob j then None else Some (- j)
+  | Mul, Some value => if qzerob j then None else Some (value * j)
+  | _, _ => None
+  end.
+Lemma self1_cell_rel o v v' y y' : o <> Div -> Rc v v' -> Rc y y' -> Rc (self1_cell o v y) (qop o v' y').
+Proof. intros Ho. destruct o; try congruence; cbn [self1_cell qop]; cellrel. Qed.
+Lemma other1_cell_rel o ov ov' x x' : o <> Div -> Rc ov ov' -> Rc x x' -> Rc (other1_cell o ov x) (qop o x' ov').
+Proof. intros Ho. destruct o; try congruence; cbn [other1_cell qop]; cellrel. Qed.
+Lemma arr_cell_rel o x x' j j' : o <> Div -> Rc x x' -> j == j' -> Rc (arr_cell o x j) (qop o x' j').
+Proof. intros Ho. destruct o; try congruence; cbn [arr_cell qop]; unfold add_arr_c, sub_arr_c, mul_arr_c; cellrel. Qed.
+Lemma arr_self1_cell_rel o v v' j j' : o <> Div -> Rc v v' -> j == j' -> Rc (arr_self1_cell o v j) (qop o v' j').
+Proof. intros Ho. destruct o; try congruence; cbn [arr_self1_cell qop]; cellrel. Qed.
+
+(* kernels are maps of the per-cell functions *)
+Lemma k_sparse_same o a b : o <> Div -> Nat.eqb (length a) (length b) = true ->
+  k_sparse false o a b = Ok (map2 (same_cell o) a b).
+Proof. intros Ho E. destruct o; try congruence; cbn; unfold add_sparse, sub_sparse, mul_sparse, dispatch_sparse; now rewrite E. Qed.
+Lemma k_sparse_self1 o a b : o <> Div -> Nat.eqb (length a) (length b) = false -> len1 a && negb (len0 b) = true ->
+  k_sparse false o a b = Ok (map (self1_cell o (hd None a)) b).
+Proof.
+  intros Ho E E1. destruct o; try congruence; cbn; unfold add_sparse, sub_sparse, mul_sparse, dispatch_sparse;
+    rewrite E, E1; f_equal; destruct (hd None a); cbn; auto.
+  - now rewrite map_id.
+  - apply empty_cells_map.
+Qed.
+Lemma k_sparse_other1 o a b : o <> Div -> Nat.eqb (length a) (length b) = false -> len1 a && negb (len0 b) = false ->
+  len1 b = true -> k_sparse false o a b = Ok (map (other1_cell o (hd None b)) a).
+Proof.
+  intros Ho E E1 E2. destruct b as [|y [|y2 b]]; try discriminate.
+  destruct o; try congruence; cbn; unfold add_sparse, sub_sparse, mul_sparse, dispatch_sparse;
+    rewrite E, E1; cbn; f_equal; destruct y; cbn; auto.
+  - now rewrite map_id.
+  - now rewrite map_id.
+  - apply empty_cells_map.
+Qed.
+Lemma k_sparse_mismatch o a b : Nat.eqb (length a) (length b) = false -> len1 a && negb (len0 b) = false ->
+  len1 b = false -> k_sparse false o a b = Err EValue.
+Proof.
+  intros E E1 E2. destruct o; cbn; unfold add_sparse, sub_sparse, mul_sparse, truediv_sparse, dispatch_sparse; now rewrite E, E1, E2.
+Qed.
+
+Theorem arith_sparse_refines o a a' b b' : o <> Div -> Rv a a' -> Rv b b' -> (length a = 1%nat -> b <> []) ->
+  refines (k_sparse false o a b) (np_arith o a' b').
+Proof.
+  intros Ho Ha Hb Hne. unfold refines, np_arith, np_bcast.
+  rewrite <- (Rv_length _ _ Ha), <- (Rv_length _ _ Hb).
+  destruct (Nat.eqb (length a) (length b)) eqn:E.
+  - rewrite k_sparse_same by auto.
+    rewrite (map2M_ext _ (fun x y => Ok (qop o x y))) by (intros; now apply aop_q_pure).
+    rewrite map2M_pure. cbn. apply (map2_Rv Rc); auto. intros; now apply same_cell_rel.
+  - unfold len1, len0 in *. destruct (Nat.eqb (length a) 1) eqn:E1.
+    + assert (L0 : Nat.eqb (length b) 0 = false).
+      { apply Nat.eqb_eq in E1. specialize (Hne E1). destruct b; [congruence|reflexivity]. }
+      rewrite k_sparse_self1 by (auto; unfold len1, len0; now rewrite E1, L0).
+      rewrite (mapM_ext _ (fun y => Ok (qop o (hd 0 a') y))) by (intros; now apply aop_q_pure).
+      rewrite mapM_pure. cbn. apply (map_Rv Rc); auto. intros. apply self1_cell_rel; auto. now apply Rv_hd.
+    + destruct (Nat.eqb (length b) 1) eqn:E2.
+      * rewrite k_sparse_other1 by (auto; unfold len1, len0; now rewrite ?E1, ?E2).
+        rewrite (mapM_ext _ (fun x => Ok (qop o x (hd 0 b')))) by (intros; now apply aop_q_pure).
+        rewrite mapM_pure. cbn. apply (map_Rv Rc); auto. intros. apply other1_cell_rel; auto. now apply Rv_hd.
+      * rewrite k_sparse_mismatch by (auto; unfold len1, len0; now rewrite ?E1, ?E2). reflexivity.
+Qed.
+
+(* scalar operand = NumPy with a length-1 array *)
+Lemma k_scalar_eq o a k : o <> Div -> k_scalar o a k = Ok (map (other1_cell o (nz k)) a).
+Proof.
+  intros Ho. destruct o; try congruence; cbn; unfold add_scalar, sub_scalar, mul_scalar, nz;
+    destruct (qzerob k); cbn; f_equal; try (now rewrite map_id). apply empty_cells_map.
+Qed.
+Theorem arith_scalar_refines o a a' k k' : o <> Div -> Rv a a' -> k == k' ->
+  refines (k_scalar o a k) (np_arith o a' [k']).
+Proof.
+  intros Ho Ha Hk. unfold refines, np_arith, np_bcast. rewrite k_scalar_eq by auto. cbn [length hd].
+  assert (R : Rc (nz k) k') by (split; [apply wfc_nz | now rewrite dcell_nz]).
+  assert (G : rrel Rv (Ok (map (other1_cell o (nz k)) a)) (mapM (fun x => aop_q o x k') a')).
+  { rewrite (mapM_ext _ (fun x => Ok (qop o x k'))) by (intros; now apply aop_q_pure).
+    rewrite mapM_pure. cbn. apply (map_Rv Rc); auto. intros. now apply other1_cell_rel. }
+  destruct (Nat.eqb (length a') 1) eqn:E1; [|exact G].
+  destruct a' as [|x' [|y' a']]; try discriminate. inversion Ha as [|x x0 a0 a1 Hx Ha0]; subst. inversion Ha0; subst.
+  cbn [map2M map]. rewrite aop_q_pure by auto. cbn. constructor; [|constructor]. now apply other1_cell_rel.
+Qed.
+
+(* 1-d array operand *)
+Lemma k_array_same o a b : o <> Div -> Nat.eqb (length a) (length b) = true ->
+  k_array o a b = Ok (map2 (arr_cell o) a b).
+Proof. intros Ho E. destruct o; try congruence; cbn; unfold add_array, sub_array, mul_array, dispatch_array; now rewrite E. Qed.
+Lemma k_array_self1 o a b : o <> Div -> Nat.eqb (length a) (length b) = false -> len1 a && negb (len0 b) = true ->
+  k_array o a b = Ok (map (arr_self1_cell o (hd None a)) b).
+Proof.
+  intros Ho E E1. destruct o; try congruence; cbn; unfold add_array, sub_array, mul_array, dispatch_array;
+    rewrite E, E1; f_equal; destruct (hd None a); cbn; auto. apply empty_cells_mapQ.
+Qed.
+Lemma k_array_mismatch o a b : Nat.eqb (length a) (length b) = false -> len1 a && negb (len0 b) = false ->
+  k_array o a b = Err EValue.
+Proof.
+  intros E E1. destruct o; cbn; unfold add_array, sub_array, mul_array, truediv_array, dispatch_array; now rewrite E, E1.
+Qed.
+(* the dispatch templates turn a length-1 list into a scalar, so the array kernels only see other lengths *)
+Theorem arith_array_refines o a a' b b' : o <> Div -> Rv a a' -> Forall2 Qeq b b' -> b <> [] -> length b <> 1%nat ->
+  refines (k_array o a b) (np_arith o a' b').
+Proof.
+  intros Ho Ha Hb Hne Hn1. unfold refines, np_arith, np_bcast.
+  assert (Lb : length b = length b') by (clear -Hb; induction Hb; cbn; auto).
+  rewrite <- (Rv_length _ _ Ha), <- Lb.
+  destruct (Nat.eqb (length a) (length b)) eqn:E.
+  - rewrite k_array_same by auto.
+    rewrite (map2M_ext _ (fun x y => Ok (qop o x y))) by (intros; now apply aop_q_pure).
+    rewrite map2M_pure. cbn. apply (map2_Rv Qeq); auto. intros; now apply arr_cell_rel.
+  - assert (L0 : len0 b = false) by (destruct b; [congruence|reflexivity]).
+    unfold len1, len0 in *. destruct (Nat.eqb (length a) 1) eqn:E1.
+    + rewrite k_array_self1 by (auto; unfold len1, len0; now rewrite E1, L0).
+      rewrite (mapM_ext _ (fun y => Ok (qop o (hd 0 a') y))) by (intros; now apply aop_q_pure).
+      rewrite mapM_pure. cbn. apply (map_Rv Qeq); auto. intros. apply arr_self1_cell_rel; auto. now apply Rv_hd.
+    + rewrite k_array_mismatch by (auto; unfold len1, len0; now rewrite ?E1).
+      apply Nat.eqb_neq in Hn1. rewrite Hn1. reflexivity.
+Qed.
+
+(* ------------------------------------------------------------------ division: whenever NumPy returns, the sparse kernel returns the same *)
+Lemma Rc_present y y' : Rc y y' -> ~ y' == 0 -> exists w, y = Some w /\ w == y' /\ ~ w == 0.
+Proof. intros [Hw Hd] Hy. destruct y as [w|]; cbn in *; [eauto | exfalso; apply Hy; now rewrite <- Hd]. Qed.
+Lemma qdiv_compat v v' w w' q' : v == v' -> w == w' -> qdiv v' w' = Ok q' -> exists q, qdiv v w = Ok q /\ q == q' /\ ~ w == 0.
+Proof.
+  intros Hv Hw H. apply qdiv_ok in H as [Hz ->]. unfold qdiv.
+  assert (Hz' : ~ w == 0) by (now rewrite Hw).
+  apply qzerob_false in Hz'. rewrite Hz'. eexists; split; [reflexivity|]. split; [now rewrite Hv, Hw | now apply qzerob_false].
+Qed.
+Definition okrel {A B} (R : A -> B -> Prop) (x : res A) (y : res B) : Prop :=
+  forall v, y = Ok v -> exists r, x = Ok r /\ R r v.
+Lemma map2M_okrel {A A' B B' C C'} (RA : A -> A' -> Prop) (RB : B -> B' -> Prop) (R : C -> C' -> Prop)
+      (f : A -> B -> res C) (g : A' -> B' -> res C') :
+  (forall x x' y y', RA x x' -> RB y y' -> okrel R (f x y) (g x' y')) ->
+  forall a a' b b', Forall2 RA a a' -> Forall2 RB b b' -> okrel (Forall2 R) (map2M f a b) (map2M g a' b').
+Proof.
+  intros Hf a a' b b' Ha. revert b b'. induction Ha as [|x x' a a' Hx Ha IH]; intros b b' Hb v Hv; cbn in *.
+  - destruct Hb; cbn in *; inversion Hv; subst; eexists; split; eauto.
+  - destruct Hb as [|y y' b b' Hy Hb]; cbn in *; [inversion Hv; subst; eexists; split; eauto|].
+    destruct (g x' y') as [z'|] eqn:G; try discriminate.
+    destruct (map2M g a' b') as [t'|] eqn:G2; try discriminate. inversion Hv; subst.
+    destruct (Hf x x' y y' Hx Hy z' G) as (z & -> & Hz).
+    destruct (IH b b' Hb t' G2) as (t & -> & Ht). eexists; split; eauto.
+Qed.
+Lemma mapM_okrel {A A' C C'} (RA : A -> A' -> Prop) (R : C -> C' -> Prop) (f : A -> res C) (g : A' -> res C') :
+  (forall x x', RA x x' -> okrel R (f x) (g x')) ->
+  forall a a', Forall2 RA a a' -> okrel (Forall2 R) (mapM f a) (mapM g a').
+Proof.
+  intros Hf a a' Ha. induction Ha as [|x x' a a' Hx Ha IH]; intros v Hv; cbn in *.
+  - inversion Hv; subst; eexists; split; eauto.
+  - destruct (g x') as [z'|] eqn:G; try discriminate.
+    destruct (mapM g a') as [t'|] eqn:G2; try discriminate. inversion Hv; subst.
+    destruct (Hf x x' Hx z' G) as (z & -> & Hz). destruct (IH t' eq_refl) as (t & -> & Ht). eexists; split; eauto.
+Qed.
+Lemma qdiv_eval v w : ~ w == 0 -> qdiv v w = Ok (v / w).
+Proof. intros H. unfold qdiv. apply qzerob_false in H. now rewrite H. Qed.
+Lemma truediv_same_c_ok x x' y y' : Rc x x' -> Rc y y' -> okrel Rc (truediv_same_c x y) (qdiv x' y').
+Proof.
+  intros Hx Hy q' H. pose proof (qdiv_ok _ _ _ H) as [Hz ->].
+  destruct (Rc_present _ _ Hy Hz) as (w & -> & Hw & Hwz).
+  destruct Hx as [Hxw Hxd]. destruct x as [v|]; cbn in *.
+  - rewrite (qdiv_eval v w Hwz). cbn. eexists; split; [reflexivity|]. split; cbn.
+    + now apply qdiv_nz.
+    + now rewrite Hxd, Hw.
+  - eexists; split; [reflexivity|]. split; cbn; auto. rewrite <- Hxd. unfold Qdiv. ring.
+Qed.
+Lemma div_c_ok x x' y y' : Rc x x' -> y == y' -> okrel Rc (div_c x y) (qdiv x' y').
+Proof.
+  intros [Hxw Hxd] Hy q' H. pose proof (qdiv_ok _ _ _ H) as [Hz ->].
+  assert (Hyz : ~ y == 0) by (now rewrite Hy).
+  destruct x as [v|]; cbn in *.
+  - rewrite (qdiv_eval v y Hyz). cbn. eexists; split; [reflexivity|]. split; cbn.
+    + now apply qdiv_nz.
+    + now rewrite Hxd, Hy.
+  - eexists; split; [reflexivity|]. split; cbn; auto. rewrite <- Hxd. unfold Qdiv. ring.
+Qed.
+(* same-size sparse / sparse, sparse / scalar, sparse / array (same size) *)
+Theorem truediv_sparse_same_ok a a' b b' : Rv a a' -> Rv b b' -> length a = length b ->
+  okrel Rv (truediv_sparse a b) (np_arith Div a' b').
+Proof.
+  intros Ha Hb L. unfold truediv_sparse, dispatch_sparse, np_arith, np_bcast.
+  rewrite <- (Rv_length _ _ Ha), <- (Rv_length _ _ Hb), L, Nat.eqb_refl.
+  apply (map2M_okrel Rc Rc); auto. intros; now apply truediv_same_c_ok.
+Qed.
+Theorem truediv_scalar_ok a a' k k' : Rv a a' -> k == k' -> length a <> 1%nat ->
+  okrel Rv (truediv_scalar a k) (np_arith Div a' [k']).
+Proof.
+  intros Ha Hk L. unfold truediv_scalar, np_arith, np_bcast. rewrite <- (Rv_length _ _ Ha). cbn [length hd].
+  apply Nat.eqb_neq in L. rewrite L. rewrite Nat.eqb_refl.
+  apply (mapM_okrel Rc); auto. intros; now apply div_c_ok.
+Qed.
+Theorem truediv_array_same_ok a a' b b' : Rv a a' -> Forall2 Qeq b b' -> length a = length b ->
+  okrel Rv (truediv_array a b) (np_arith Div a' b').
+Proof.
+  intros Ha Hb L. unfold truediv_array, dispatch_array, np_arith, np_bcast.
+  assert (Lb : length b = length b') by (clear -Hb; induction Hb; cbn; auto).
+  rewrite <- (Rv_length _ _ Ha), <- Lb, L, Nat.eqb_refl.
+  apply (map2M_okrel Rc Qeq); auto. intros; now apply div_c_ok.
+Qed.
+
+(* ------------------------------------------------------------------ in-place kernels *)
+Lemma inplace_eq_binary o a b : ik_sparse false o false a b = k_sparse false o a b.
+Proof. destruct o; reflexivity. Qed.
+Lemma inplace_self_eq_binary o a : o <> Div -> ik_sparse false o true a a = k_sparse false o a a.
+Proof. destruct o; try congruence; reflexivity. Qed.
+(* NumPy's in-place form is the binary form whenever the result has the shape of the target *)
+Lemma np_iarith_binary o a b : length a = length b \/ (length b = 1%nat) -> np_iarith o a b = np_arith o a b.
+Proof.
+  intros H. unfold np_iarith, np_ibcast, np_arith, np_bcast.
+  destruct (Nat.eqb (length a) (length b)) eqn:E; auto.
+  destruct H as [H|H]; [apply Nat.eqb_neq in E; congruence|].
+  rewrite H. cbn. destruct (Nat.eqb (length a) 1) eqn:E1; auto.
+  apply Nat.eqb_eq in E1. apply Nat.eqb_neq in E. congruence.
+Qed.
+Theorem iarith_sparse_refines o a a' b b' : o <> Div -> Rv a a' -> Rv b b' ->
+  length a = length b \/ length b = 1%nat ->
+  refines (ik_sparse false o false a b) (np_iarith o a' b').
+Proof.
+  intros Ho Ha Hb L. rewrite inplace_eq_binary, np_iarith_binary.
+  - apply arith_sparse_refines; auto. intros L1 ->. cbn in L. destruct L as [L|L]; congruence.
+  - now rewrite <- (Rv_length _ _ Ha), <- (Rv_length _ _ Hb).
+Qed.
+
+(* ------------------------------------------------------------------ unary operations and copies *)
+Lemma neg_refines a a' : Rv a a' -> Rv (neg_cells a) (np_neg a').
+Proof. intros H. apply (map_Rv Rc); auto. cellrel. Qed.
+Lemma abs_refines a a' : Rv a a' -> Rv (abs_cells a) (np_abs a').
+Proof.
+  intros H. apply (map_Rv Rc); auto. intros x x' [Hw Hd]. destruct x as [v|]; cbn in *; split; cbn; auto.
+  - now apply qabs_nz.
+  - now rewrite Hd.
+  - rewrite <- Hd. reflexivity.
+Qed.
+Lemma empty_refines a a' : Rv a a' -> Rv (empty_cells (length a)) (map (fun _ => 0) a').
+Proof. intros H. rewrite empty_cells_map. apply (map_Rv Rc); auto. intros; split; cbn; auto. reflexivity. Qed.
+
+(* ------------------------------------------------------------------ footprint of one operation *)
+Definition target (o : xop) : option nat :=
+  match o with
+  | XOp (OIBin _ i _) | XOp (OClear i) | XOp (OSetRO i) | XOp (OSet i _ _) | XASet i _ _ => Some i
+  | _ => None
+  end.
+Ltac shp H :=
+  repeat match type of H with
+         | (do _ <- ?m; _) = Ok _ => let E := fresh "E" in destruct m eqn:E; cbn [bind] in H; [|discriminate H]
+         | context [match ?x with _ => _ end] => destruct x eqn:?; try discriminate H
+         | context [if ?x then _ else _] => destruct x eqn:?; try discriminate H
+         end.
+Lemma xstep_res_shape lg s o s' r : xstep_res lg s o = Ok (s', r) ->
+  s' = s \/ (exists n, s' = s ++ [n] /\ target o = None) \/ (exists i x, s' = set_obj s i x /\ target o = Some i).
+Proof.
+  intros H. destruct o as [o|i ax|i ax v]; [destruct o|..]; cbn [xstep_res step_res] in H; shp H;
+    inversion H; subst; cbn [target]; eauto 6.
+Qed.
+Lemma nth_error_app_l {A} (l l' : list A) k : (k < length l)%nat -> nth_error (l ++ l') k = nth_error l k.
+Proof. intros. now apply nth_error_app1. Qed.
+Theorem xstep_frame lg s o : forall k, (k < length s)%nat -> target o <> Some k ->
+  nth_error (fst (xstep lg s o)) k = nth_error s k.
+Proof.
+  intros k Hk Ht. unfold xstep. destruct (xstep_res lg s o) as [[s' r]|e] eqn:E; cbn; auto.
+  destruct (xstep_res_shape _ _ _ _ _ E) as [->|[(n & -> & _)|(i & x & -> & T)]]; auto.
+  - now apply nth_error_app_l.
+  - unfold set_obj. apply nth_error_upd_other. congruence.
+Qed.
+Theorem xstep_length lg s o : (length s <= length (fst (xstep lg s o)))%nat.
+Proof.
+  unfold xstep. destruct (xstep_res lg s o) as [[s' r]|e] eqn:E; cbn; auto.
+  destruct (xstep_res_shape _ _ _ _ _ E) as [->|[(n & -> & _)|(i & x & -> & T)]]; auto.
+  - rewrite app_length. cbn. lia.
+  - unfold set_obj. now rewrite upd_length.
+Qed.
+(* for every history: an object changes only through a mutator aimed at it *)
+Theorem run_frame lg ops : forall s k, (k < length s)%nat -> (forall o, In o ops -> target o <> Some k) ->
+  nth_error (fst (run lg s ops)) k = nth_error s k.
+Proof.
+  induction ops as [|o ops IH]; intros s k Hk Ht; cbn; auto.
+  pose proof (xstep_frame lg s o k Hk (Ht o (or_introl eq_refl))) as F.
+  pose proof (xstep_length lg s o) as L.
+  destruct (xstep lg s o) as [s' r]. cbn in F, L.
+  destruct (crashed r); cbn; auto.
+  specialize (IH s' k ltac:(lia) (fun o' H => Ht o' (or_intror H))).
+  destruct (run lg s' ops). cbn in *. congruence.
+Qed.
+(* a rejected operation (ValueError, IndexError, TypeError) leaves the whole store as it was,
+   except SparseArray.__setitem__, whose row loop may have written earlier rows *)
+Theorem rejected_unchanged lg s o e : (forall i ax v, o <> XASet i ax v) -> lg = false ->
+  snd (xstep lg s o) = RErr e -> fst (xstep lg s o) = s.
+Proof.
+  intros Hn -> H. unfold xstep in *. destruct (xstep_res false s o) as [[s' r]|e'] eqn:E; cbn in *; auto.
+  subst r. destruct o as [o|i ax|i ax v]; [destruct o|..]; cbn [xstep_res step_res] in E; shp E;
+    try (inversion E; subst; auto; fail); try (exfalso; eapply Hn; reflexivity).
+Qed.
+
+(* ------------------------------------------------------------------ read-only vectors reject every write *)
+Theorem readonly_vector_rejects lg s i c o :
+  nth_error s i = Some (OV c true) ->
+  (exists b a p, o = XOp (OIBin b i a) /\ resolve s a = Ok p) \/ o = XOp (OClear i) \/
+  (exists ix a p, o = XOp (OSet i ix a) /\ resolve s a = Ok p) ->
+  xstep lg s o = (s, RErr EValue).
+Proof.
+  intros Hi [(b & a & p & -> & R)|[->|(ix & a & p & -> & R)]]; unfold xstep; cbn [xstep_res step_res];
+    unfold getobj; rewrite Hi; cbn [bind]; rewrite ?R; cbn; reflexivity.
+Qed.
+
+(* ================================================================== Part 4: statements the code does not satisfy *)
+(* full statements (kept visible); each is refuted by a concrete witness evaluated by the kernel *)
+Definition div_statement : Prop :=
+  forall a b, wf a -> wf b -> refines (truediv_sparse a b) (np_arith Div (dense a) (dense b)).
+Definition inplace_statement : Prop :=
+  forall o a b, wf a -> wf b -> refines (ik_sparse false o false a b) (np_iarith o (dense a) (dense b)).
+Definition broadcast_statement : Prop :=
+  forall o a b, wf a -> wf b -> refines (k_sparse false o a b) (np_arith o (dense a) (dense b)).
+Definition setitem_index_statement : Prop :=
+  forall c i v, wf c -> refines (set1 c i v) (if Nat.ltb i (length c) then Ok (upd (dense c) i v) else Err EIndex).
+Definition setitem_shape_statement : Prop :=
+  forall c idx l, wf c -> refines (set_idx c idx (SVArr l)) (np_setitems (dense c) idx l).
+Definition readonly_array_statement : Prop :=
+  forall s i rows o, nth_error s i = Some (OA rows true) -> target o = Some i -> fst (xstep false s o) = s.
+Definition logical_div_statement : Prop :=
+  forall a b, rrel eq (lv_isparse LDiv a b) (np_logic LDiv a b).
+Definition array_rows_statement : Prop :=
+  forall o rows m isb r, array_bin false o (map VF rows) (PArr2 m isb) = Ok (OA r false) -> length r = length rows.
+Definition mask_rows_statement : Prop :=
+  forall rows mk l, Forall wf rows -> length l = vsize rows ->
+    Forall (fun i => nth_error (fst (arrF_set false rows false (XRow (IMask mk)) (PArr l false))) i = Some (of_dense l)) (mask_idx mk).
+Ltac wfv := repeat constructor; cbn; try exact I; try (let K := fresh "K" in intro K; vm_compute in K; discriminate K).
+Lemma div_refuted : ~ div_statement.
+Proof. intros H. specialize (H [None; Some 1] [None; Some 1] ltac:(wfv) ltac:(wfv)). vm_compute in H. exact H. Qed.
+Lemma inplace_refuted : ~ inplace_statement.
+Proof. intros H. specialize (H Add [Some 1] [Some 1; Some 2; Some 3] ltac:(wfv) ltac:(wfv)). vm_compute in H. exact H. Qed.
+Lemma broadcast_refuted : ~ broadcast_statement.
+Proof. intros H. specialize (H Add [Some 1] [] ltac:(wfv) ltac:(wfv)). vm_compute in H. exact H. Qed.
+Lemma setitem_index_refuted : ~ setitem_index_statement.
+Proof. intros H. specialize (H [None] 3%nat 1 ltac:(wfv)). vm_compute in H. discriminate H. Qed.
+Lemma setitem_shape_refuted : ~ setitem_shape_statement.
+Proof. intros H. specialize (H [None; None; None] [0; 1; 2]%nat [5; 6] ltac:(wfv)). vm_compute in H. exact H. Qed.
+Lemma readonly_array_refuted : ~ readonly_array_statement.
+Proof.
+  intros H. specialize (H [OA [[Some 1]] true] 0%nat [[Some 1]] (XOp (OIBin (BA Add) 0 (AScal 1))) eq_refl eq_refl).
+  vm_compute in H. discriminate H.
+Qed.
+Lemma logical_div_refuted : ~ logical_div_statement.
+Proof. intros H. specialize (H [true] [true; false]). vm_compute in H. exact H. Qed.
+Lemma array_rows_refuted : ~ array_rows_statement.
+Proof.
+  intros H. specialize (H (BA Add) [[Some 1]; [Some 2]; [Some 3]] [[1]; [1]] false [[Some 2]; [Some 3]] eq_refl).
+  vm_compute in H. discriminate H.
+Qed.
+Lemma mask_rows_refuted : ~ mask_rows_statement.
+Proof.
+  intros H. specialize (H [[None; None]] [true] [5; 7] ltac:(repeat constructor) eq_refl).
+  vm_compute in H. inversion H as [|x l Hx Hl]; subst. discriminate Hx.
+Qed.
+(* what the repairs in pending_fixes/C09_1, C09_2 correct: the old kernels dropped 1/0 and raised on a -= a *)
+Lemma legacy_div_drops_entry :
+  truediv_sparse_legacy [Some 1; None; Some 2] [None; Some 1; Some 2] = Ok [None; None; Some (2 # 2)] /\
+  np_arith Div [1; 0; 2] [0; 1; 2] = Err EZeroDiv /\
+  truediv_sparse [Some 1; None; Some 2] [None; Some 1; Some 2] = Err EZeroDiv.
+Proof. repeat split; vm_compute; reflexivity. Qed.
+Lemma legacy_isub_self_raises :
+  isub_self [Some 1; None; Some 2] = Err ERuntime /\ isub_self_fixed [Some 1; None; Some 2] = Ok [None; None; None].
+Proof. split; vm_compute; reflexivity. Qed.
+
+(* ================================================================== Part 5: histories refine NumPy histories (float-vector fragment) *)
+Lemma dense_of_dense l : Forall2 Qeq (dense (of_dense l)) l.
+Proof. induction l; cbn; constructor; auto. apply dcell_nz. Qed.
+Lemma Rv_of_dense l : Rv (of_dense l) l.
+Proof. apply Rv_spec. split; [apply wf_of_dense | apply dense_of_dense]. Qed.
+
+Definition osim (o : obj) (d : dobj) : Prop :=
+  match o, d with
+  | OV c ro, DV v ro' => Rv c v /\ ro = ro'
+  | OL b, DL b' => b = b'
+  | OA rows ro, DA m ro' => Forall2 Rv rows m /\ ro = ro'
+  | OB r, DB r' => r = r'
+  | _, _ => False
+  end.
+Definition sim (s : store) (d : dstore) : Prop := Forall2 osim s d.
+Lemma sim_abs s : store_wf s -> sim s (abs_store s).
+Proof.
+  intros H. unfold sim, abs_store. induction H as [|o s Ho Hs IH]; cbn; constructor; auto.
+  destruct o; cbn in *; auto using Rv_dense.
+  split; auto. induction Ho; cbn; constructor; auto using Rv_dense.
+Qed.
+Lemma sim_nth s d i o : sim s d -> nth_error s i = Some o -> exists o', nth_error d i = Some o' /\ osim o o'.
+Proof.
+  intros H. revert i. induction H as [|x y s d Hxy H IH]; intros [|i] E; cbn in *; try discriminate.
+  - inversion E; subst. eauto.
+  - eauto.
+Qed.
+Lemma sim_app s d o o' : sim s d -> osim o o' -> sim (s ++ [o]) (d ++ [o']).
+Proof. intros. apply Forall2_app; auto. Qed.
+Lemma sim_upd s d i o o' : sim s d -> osim o o' -> sim (upd s i o) (upd d i o').
+Proof. intros H Ho. revert i. unfold sim in *. induction H; intros [|i]; cbn; try constructor; auto. Qed.
+
+(* operands of the fragment: a float vector of the store, a python scalar, a non-empty list / 1-d ndarray *)
+Definition okarg (s : store) (c : cells) (x : arg) : Prop :=
+  match x with
+  | AObj j => exists d ro, nth_error s j = Some (OV d ro) /\ (length c = 1%nat -> d <> [])
+  | AScal _ => True
+  | AArr l => l <> []
+  | _ => False
+  end.
+Definition vcells (r : res vec) : res cells :=
+  match r with Ok (VF c) => Ok c | Ok (VB _) => Err EOther | Err e => Err e end.
+Lemma vcells_okF r : vcells (okF r) = r.
+Proof. destruct r; reflexivity. Qed.
+Lemma arg_refines s d a c v x : sim s d -> a <> Div -> Rv c v -> okarg s c x ->
+  exists p w, resolve s x = Ok p /\ darg d x = Some w /\
+              refines (vcells (vec_bin false (BA a) (VF c) p)) (np_arith a v w) /\
+              (forall al, (al = true -> p = PV c) -> vec_ibin false (BA a) al (VF c) p = vec_bin false (BA a) (VF c) p) /\
+              match p with PV e => length e = length w | PS _ _ => length w = 1%nat | PArr l _ => length l = length w | _ => False end.
+Proof.
+  intros Hs Ha Hc Hx. destruct x as [j|q|b|l|l|m|m]; cbn in Hx; try contradiction.
+  - destruct Hx as (e & ro & Ej & Hne). destruct (sim_nth _ _ _ _ Hs Ej) as (o' & Ej' & Ho).
+    destruct o' as [w ro'| | |]; cbn in Ho; try contradiction. destruct Ho as [Hew _].
+    exists (PV e), w. cbn. unfold getobj. rewrite Ej, Ej'. cbn. repeat split; auto.
+    + rewrite vcells_okF. now apply arith_sparse_refines.
+    + intros al Hal. destruct al; [|now rewrite inplace_eq_binary].
+      specialize (Hal eq_refl). inversion Hal; subst. now rewrite inplace_self_eq_binary.
+    + now apply Rv_length.
+  - exists (PS q false), [q]. cbn. repeat split; auto. rewrite vcells_okF. apply arith_scalar_refines; auto. reflexivity.
+  - destruct l as [|x [|y l]]; [congruence| |].
+    + exists (PS x false), [x]. cbn. repeat split; auto. rewrite vcells_okF. apply arith_scalar_refines; auto. reflexivity.
+    + exists (PArr (x :: y :: l) false), (x :: y :: l). cbn -[np_arith]. repeat split; auto.
+      rewrite vcells_okF. apply arith_array_refines; auto using Forall2_Qeq_refl; cbn; congruence.
+Qed.
+
+Lemma vec_bin_BA_VF a c p r : vec_bin false (BA a) (VF c) p = Ok r -> exists c', r = VF c'.
+Proof. destruct p; cbn; intros H; try discriminate; apply okF_inv in H as (c' & _ & ->); eauto. Qed.
+
+Inductive fop (s : store) : xop -> Prop :=
+| F_bin a i x c ro : a <> Div -> nth_error s i = Some (OV c ro) -> okarg s c x -> fop s (XOp (OBin (BA a) i x))
+| F_ibin a i x c ro : a <> Div -> nth_error s i = Some (OV c ro) -> okarg s c x ->
+    (* the result has the shape of the target (NumPy's rule for in-place operators) *)
+    (forall p, resolve s x = Ok p ->
+       match p with PV e => length e = length c \/ length e = 1%nat | PArr l _ => length l = length c | _ => True end) ->
+    fop s (XOp (OIBin (BA a) i x))
+| F_neg i c ro : nth_error s i = Some (OV c ro) -> fop s (XOp (ONeg i))
+| F_abs i c ro : nth_error s i = Some (OV c ro) -> fop s (XOp (OAbs i))
+| F_copy i c ro : nth_error s i = Some (OV c ro) -> fop s (XOp (OCopy i))
+| F_clear i c ro : nth_error s i = Some (OV c ro) -> fop s (XOp (OClear i))
+| F_setro i c ro : nth_error s i = Some (OV c ro) -> fop s (XOp (OSetRO i)).
+
+Lemma np_arith_err a v w e : a <> Div -> np_arith a v w = Err e -> e = EValue.
+Proof.
+  intros Ha. unfold np_arith, np_bcast.
+  rewrite (map2M_ext _ (fun x y => Ok (qop a x y))) by (intros; now apply aop_q_pure).
+  rewrite (mapM_ext (aop_q a (hd 0 v)) (fun y => Ok (qop a (hd 0 v) y))) by (intros; now apply aop_q_pure).
+  rewrite (mapM_ext (fun x => aop_q a x (hd 0 w)) (fun x => Ok (qop a x (hd 0 w)))) by (intros; now apply aop_q_pure).
+  rewrite map2M_pure, !mapM_pure.
+  destruct (Nat.eqb (length v) (length w)); [discriminate|].
+  destruct (Nat.eqb (length v) 1); [discriminate|].
+  destruct (Nat.eqb (length w) 1); [discriminate|]. congruence.
+Qed.
+
+Lemma step_sim s d o : sim s d -> fop s o ->
+  sim (fst (xstep false s o)) (fst (np_step d o)) /\ crashed (snd (xstep false s o)) = false.
+Proof.
+  intros Hs Ho. destruct Ho as [a i x c ro Ha Ei Hx | a i x c ro Ha Ei Hx Hsh | i c ro Ei | i c ro Ei | i c ro Ei | i c ro Ei | i c ro Ei];
+    destruct (sim_nth _ _ _ _ Hs Ei) as (o' & Ei' & Hoo); destruct o' as [v ro'| | |]; cbn in Hoo; try contradiction;
+    destruct Hoo as [Hcv <-].
+  - destruct (arg_refines s d a c v x Hs Ha Hcv Hx) as (p & w & R & D & Href & _ & _).
+    unfold xstep. cbn [xstep_res step_res np_step]. unfold getobj. rewrite Ei, Ei', R, D. cbn [bind vec_of_obj].
+    unfold vector_bin.
+    assert (P : match p with PA _ | PB _ | PArr2 _ _ => False | _ => True end).
+    { destruct x as [j| | |l| | |]; cbn in R; try contradiction; try (inversion R; exact I).
+      - unfold getobj in R. destruct Hx as (e & ro2 & Ej & _). rewrite Ej in R. inversion R; exact I.
+      - inversion R. unfold reduce1. destruct l as [|? [|? ?]]; exact I. }
+    destruct p; try contradiction;
+      (destruct (vec_bin false (BA a) (VF c) _) as [[r|bb]|e] eqn:V; try (apply vec_bin_BA_VF in V as (? & V'); discriminate V'); cbn in Href;
+       destruct (np_arith a v w) as [r'|e'] eqn:N; cbn in Href; try contradiction; cbn;
+       (split; [auto; try (apply sim_app; auto; cbn; auto) | try reflexivity; subst; now rewrite (np_arith_err _ _ _ _ Ha N)])).
+  - destruct (arg_refines s d a c v x Hs Ha Hcv Hx) as (p & w & R & D & Href & Hal & Hlen).
+    specialize (Hsh p R).
+    unfold xstep. cbn [xstep_res step_res np_step]. unfold getobj. rewrite Ei, Ei', R, D. cbn [bind vec_of_obj is_ro].
+    destruct ro; [cbn; auto|].
+    assert (Hnp : np_iarith a v w = np_arith a v w).
+    { apply np_iarith_binary. rewrite <- (Rv_length _ _ Hcv). destruct p; try contradiction; try (right; exact Hlen).
+      - rewrite <- Hlen. destruct Hsh as [L|L]; auto.
+      - left. now rewrite <- Hlen. }
+    rewrite Hnp.
+    assert (Hal' : alias_of x i = true -> p = PV c).
+    { intros A. destruct x; cbn in A; try discriminate. apply Nat.eqb_eq in A. subst. cbn in R. unfold getobj in R.
+      rewrite Ei in R. now inversion R. }
+    destruct p; try contradiction;
+      (rewrite (Hal _ Hal');
+       destruct (vec_bin false (BA a) (VF c) _) as [[r|bb]|e] eqn:V; try (apply vec_bin_BA_VF in V as (? & V'); discriminate V'); cbn in Href;
+       destruct (np_arith a v w) as [r'|e'] eqn:N; cbn in Href; try contradiction; cbn;
+       (split; [auto; try (apply sim_upd; auto; cbn; auto) | try reflexivity; subst; now rewrite (np_arith_err _ _ _ _ Ha N)])).
+  - unfold xstep. cbn [xstep_res step_res np_step]. unfold getobj. rewrite Ei, Ei'. cbn. split; auto.
+    apply sim_app; auto. cbn. split; auto. now apply neg_refines.
+  - unfold xstep. cbn [xstep_res step_res np_step]. unfold getobj. rewrite Ei, Ei'. cbn. split; auto.
+    apply sim_app; auto. cbn. split; auto. now apply abs_refines.
+  - unfold xstep. cbn [xstep_res step_res np_step]. unfold getobj. rewrite Ei, Ei'. cbn. split; auto.
+    apply sim_app; auto. cbn. split; auto.
+  - unfold xstep. cbn [xstep_res step_res np_step]. unfold getobj. rewrite Ei, Ei'. cbn.
+    destruct ro; cbn; auto. split; auto. apply sim_upd; auto. cbn. split; auto. now apply empty_refines.
+  - unfold xstep. cbn [xstep_res step_res np_step]. unfold getobj. rewrite Ei, Ei'. cbn. split; auto.
+    apply sim_upd; auto. cbn. split; auto.
+Qed.
+
+(* the lift to every history of fragment operations *)
+Inductive frun : store -> list xop -> Prop :=
+| frun_nil s : frun s []
+| frun_cons s o ops : fop s o -> frun (fst (xstep false s o)) ops -> frun s (o :: ops).
+Fixpoint np_run (d : dstore) (ops : list xop) : dstore :=
+  match ops with [] => d | o :: t => np_run (fst (np_step d o)) t end.
+Theorem history_refines ops : forall s d, sim s d -> frun s ops -> sim (fst (run false s ops)) (np_run d ops).
+Proof.
+  induction ops as [|o ops IH]; intros s d Hs Hf; cbn; auto.
+  inversion Hf as [|s0 o0 ops0 Ho Hrest]; subst.
+  destruct (step_sim s d o Hs Ho) as [H1 H2].
+  destruct (xstep false s o) as [s' r]. cbn in *. rewrite H2.
+  specialize (IH s' (fst (np_step d o)) H1 Hrest). destruct (run false s' ops). cbn in *. exact IH.
+Qed.
+(* dense images at the end of a history of fragment operations started from constructed vectors *)
+Corollary history_dense ops s : store_wf s -> frun s ops ->
+  sim (fst (run false s ops)) (np_run (abs_store s) ops).
+Proof. intros Hw Hf. apply history_refines; auto. now apply sim_abs. Qed.
+
